@@ -166,6 +166,55 @@ class Case:
             return a[1]
         raise Undecided("atom kind %s" % k)
 
+    def _reps(self):
+        if getattr(self, "_rep", None) is None:
+            cls = {}
+            for k, r in self.pos.items():
+                cls.setdefault(r, []).append(k)
+            rep = {}
+            for r, ks in cls.items():
+                consts = [k for k in ks if k[0] == "int"]
+                best = ("int", consts[0][1], "usize") if consts else min(ks, key=repr)
+                for k in ks:
+                    rep[k] = best
+            self._rep = rep
+        return self._rep
+
+    def norm(self, t):
+        """replace every integer point by the representative of its equality class and re-simplify"""
+        if not isinstance(t, tuple) or not t:
+            return t
+        k = _int_key(t)
+        rep = self._reps()
+        if k in rep:
+            return rep[k]
+        if t[0] == "int":
+            return ("int", t[1], "usize")
+        out = tuple(self.norm(x) if isinstance(x, tuple) else x for x in t)
+        if out[0] == "bin":
+            if out[1] in ("Sub", "SatSub") and out[2] == out[3]:
+                return ("int", 0, "usize")
+            return sym.mk_bin(out[1], out[2], out[3])
+        if out[0] == "len":
+            return sym.mk_len(out[1])
+        return out
+
+    def truth(self, t):
+        """truth value of a bool-valued term under this case, or None"""
+        if t[0] == "bool":
+            return t[1]
+        if t in self.bools:
+            return self.bools[t]
+        if t[0] == "un" and t[1] == "Not":
+            v = self.truth(t[2])
+            return None if v is None else (not v)
+        if t[0] == "bin" and t[1] in ("Lt", "Le", "Gt", "Ge", "Eq", "Ne"):
+            try:
+                return self.holds(sym.atom_of(t, True))
+            except (KeyError, Undecided):
+                return None
+        return None
+
     def describe(self):
         parts = []
         inv = {}
@@ -268,8 +317,15 @@ def enumerate_cases(atoms, nonneg=True, extra_consts=(), variant_domain=None, co
     if n > max_cases:
         raise Undecided("too many cases (%d)" % n)
     for pos in order_types:
+        # opaque terms that become identical once equal integer points are identified must agree
+        bkeys = [_rank_subst(t, pos) for t in bools]
+        vkeys = [_rank_subst(t, pos) for t in vterms]
         for vs in itertools.product(*vdoms) if vdoms else [()]:
+            if not _consistent(vkeys, vs):
+                continue
             for bs in itertools.product([False, True], repeat=len(bools)):
+                if not _consistent(bkeys, bs):
+                    continue
                 c = Case(pos, dict(zip(vterms, vs)), dict(zip(bools, bs)))
                 ok = True
                 for con in constraints:
@@ -281,6 +337,24 @@ def enumerate_cases(atoms, nonneg=True, extra_consts=(), variant_domain=None, co
                         pass
                 if ok:
                     yield c
+
+
+def _rank_subst(t, pos):
+    if not isinstance(t, tuple) or not t:
+        return t
+    k = _int_key(t)
+    if k in pos:
+        return ("rank", pos[k])
+    return tuple(_rank_subst(x, pos) if isinstance(x, tuple) else x for x in t)
+
+
+def _consistent(keys, vals):
+    seen = {}
+    for k, v in zip(keys, vals):
+        if k in seen and seen[k] != v:
+            return False
+        seen[k] = v
+    return True
 
 
 class Row:
@@ -302,12 +376,22 @@ class Mismatch:
         return "%s  [case: %s]" % (self.msg, self.case.describe() if self.case else "-")
 
 
-def outcome_matches(path, row):
+def _arity(fn):
+    import inspect
+    try:
+        return len(inspect.signature(fn).parameters)
+    except (TypeError, ValueError):
+        return 1
+
+
+def outcome_matches(path, row, case=None):
     if row.kind != "any" and path.kind != row.kind:
         return "expected %s, path ends in %s (%s)" % (row.kind, path.kind, show(path.value) if isinstance(path.value, tuple) else path.value)
     if row.outcome is None:
         return None
     if callable(row.outcome):
+        if _arity(row.outcome) >= 2:
+            return row.outcome(path, case)
         return row.outcome(path)
     got = strip_gargs(path.value)
     exp = strip_gargs(row.outcome)
@@ -340,7 +424,7 @@ def compare(paths, rows, nonneg=True, extra_consts=(), variant_domain=None, cons
             continue
         decided += 1
         for p in live_paths:
-            m = outcome_matches(p, row)
+            m = outcome_matches(p, row, case)
             if m:
                 mism.append(Mismatch(case, "row %r: %s" % (row.name, m), p, row))
     return mism, n, decided
